@@ -20,7 +20,7 @@ LEAN = dict(
     driver="drivers/C01.lean",
     harness="c01_state.py + state_common.py",
     extra_modules=["LeaspyVerif.Model.State", "LeaspyVerif.Model.Dag", "LeaspyVerif.Props.C15"],
-    theorems=["inv_init", "inv_step", "get_refines", "get_unknown", "run_refines", "set_abs", "set_refused",
+    theorems=["inv_init", "inv_step", "get_refines", "get_unknown", "run_refines", "set_abs", "set_refused", "wf_of_build",
               ],
     trusted_extra=[
         "values are abstract in the theorems (any type, so tensors with inf/nan are covered: reverts select, they do not compute); "
@@ -52,8 +52,8 @@ def run_histories(chk, env, shadows, n_hist, length, maker):
         rn = sc.Runner(env, sh, chk.rng)
         try:
             maker(rn, length)
-        except Exception as e:  # noqa  — an exception inside the harness' own driving code
-            rn.fails.append(f"history aborted by {type(e).__name__}: {e}")
+        except Exception as e:  # noqa  — every call into leaspy is wrapped (Runner.call): this is a harness bug
+            raise core.Infra(f"harness error while driving a history: {type(e).__name__}: {e}")
         line = rn.request_line()
         cj = {"kind": "shadow", "family": tag, "line": line}
         for f in rn.fails[:3]:
